@@ -274,6 +274,7 @@ static inline void free_myth_thread_struct_desc(myth_running_env_t e,myth_thread
   myth_spin_unlock_body(&th->sanity_check);
 #endif
   //Add to a freelist
+  MYTH_VERIF_POINT(MYTH_VP_DESC_FREE, e, th, 0);
   myth_freelist_push(&e->freelist_desc,(void*)th);
 #else
   myth_assert(th);
@@ -303,6 +304,7 @@ static inline void free_myth_thread_struct_stack(myth_running_env_t e,myth_threa
     ptr = (void**)th->stack;
 
     uintptr_t *blk_size = (uintptr_t*)(((uint8_t*)ptr) + sizeof(void*));
+    MYTH_VERIF_POINT(MYTH_VP_STACK_FREE, e, ptr, *blk_size);
     if (*blk_size == 0) {
       myth_freelist_push(&e->freelist_stack, ptr);
     } else {
@@ -345,6 +347,7 @@ MYTH_CTX_CALLBACK void myth_create_1(void *arg1,void *arg2,void *arg3) {
   env->prof_data.create_d_cnt++;
 #endif
   env->this_thread = new_thread;
+  MYTH_VERIF_POINT(MYTH_VP_CREATE_1, this_thread, new_thread, 0);
 #if MYTH_CREATE_PROF
   t1=myth_get_rdtsc();
   env->prof_data.create_cycles+=t1-env->prof_data.create_cycles_tmp;
@@ -411,6 +414,8 @@ static inline int myth_create_ex_body(myth_thread_t * id,
 #if MYTH_SPLIT_STACK_DESC /* default */
   // allocate stack and get pointer
   void * stk = get_new_myth_thread_struct_stack(env, stack_size);
+  MYTH_VERIF_POINT(MYTH_VP_DESC_GET, env, new_thread, 0);
+  MYTH_VERIF_POINT(MYTH_VP_STACK_GET, env, stk, stack_size);
   new_thread->stack = stk;
   new_thread->stack_size = stack_size;
 #else
@@ -433,6 +438,7 @@ static inline int myth_create_ex_body(myth_thread_t * id,
   // Initialize thread descriptor
   init_myth_thread_struct(env, new_thread);
   new_thread->result = arg;
+  MYTH_VERIF_POINT(MYTH_VP_CREATE_BEGIN, new_thread, stk, child_first);
 
   size_t stk_size = stack_size - sizeof(void*) * 2;
   if (child_first){
@@ -474,6 +480,7 @@ static inline int myth_create_ex_body(myth_thread_t * id,
 
     //Push a new thread to runqueue
     myth_queue_push(&env->runnable_q, new_thread);
+    MYTH_VERIF_POINT(MYTH_VP_CREATE_PUSHED, new_thread, 0, 0);
 #if MYTH_CREATE_PROF
     t1 = myth_get_rdtsc();
     env->prof_data.create_cycles += t1 - t0;
@@ -503,6 +510,7 @@ static inline void myth_exit_body(void *ret) {
 
 static inline void myth_join_1(myth_running_env_t e,myth_thread_t th,void **result)
 {
+  MYTH_VERIF_POINT(MYTH_VP_JOIN_REAP, th, 0, (long)th->result);
   if (result!=NULL){
     *result=th->result;
   }
@@ -515,6 +523,7 @@ MYTH_CTX_CALLBACK void myth_join_2(void *arg1,void *arg2,void *arg3)
   myth_thread_t th=arg2,next_thread=arg3;
   //Set join target
   myth_desc_join_set(th,env->this_thread);
+  MYTH_VERIF_POINT(MYTH_VP_JOIN_CB_SET, th, env->this_thread, 0);
   myth_spin_unlock_body(&th->lock);
   //Change current running thread
   env->this_thread=next_thread;
@@ -527,6 +536,7 @@ MYTH_CTX_CALLBACK void myth_join_3(void *arg1,void *arg2,void *arg3)
   (void)arg3;
   //Set join target
   myth_desc_join_set(th,this_thread);
+  MYTH_VERIF_POINT(MYTH_VP_JOIN_CB_SET, th, this_thread, 0);
   //Change current running thread
   myth_spin_unlock_body(&th->lock);
 }
@@ -585,6 +595,7 @@ static inline int myth_join_body(myth_thread_t th,void **result) {
 #endif
   //Obtain lock and check again
   myth_spin_lock_body(&th->lock);
+  MYTH_VERIF_POINT(MYTH_VP_JOIN_LOCKED, th, this_thread, myth_desc_is_finished(th));
   //If target is finished, return
   if (myth_desc_is_finished(th)){
 #if MYTH_DEBUG_JOIN_FCC
@@ -596,6 +607,9 @@ static inline int myth_join_body(myth_thread_t th,void **result) {
     myth_dprintf("myth_join:join thread (%p) is already finished. Return immediately\n",th);
 #endif
     myth_spin_unlock_body(&th->lock);
+#ifdef MYTH_VERIF
+    while (th->status != MYTH_STATUS_FREE_READY2) MYTH_VERIF_SPIN(MYTH_VP_JOIN_SPIN, th);
+#endif
     while (th->status != MYTH_STATUS_FREE_READY2);
 #if MYTH_JOIN_PROF_DETAIL
     if (result) *result = th->result;
@@ -663,6 +677,9 @@ static inline int myth_join_body(myth_thread_t th,void **result) {
   //Get return value
   myth_spin_unlock_body(&th->lock);
 #endif
+#ifdef MYTH_VERIF
+  while (th->status != MYTH_STATUS_FREE_READY2) MYTH_VERIF_SPIN(MYTH_VP_JOIN_SPIN, th);
+#endif
   while (th->status != MYTH_STATUS_FREE_READY2) { }
   // use myth_get_current_env_noinline here to prevent compiler from sharing
   // the same g_worker_rank before and after context switching
@@ -687,9 +704,13 @@ static inline int myth_tryjoin_body(myth_thread_t th,void **result) {
   env = myth_get_current_env();
   //Obtain lock and check again
   myth_spin_lock_body(&th->lock);
+  MYTH_VERIF_POINT(MYTH_VP_TRYJOIN_LOCKED, th, 0, myth_desc_is_finished(th));
   //If target is finished, return
   if (myth_desc_is_finished(th)){
     myth_spin_unlock_body(&th->lock);
+#ifdef MYTH_VERIF
+    while (th->status != MYTH_STATUS_FREE_READY2) MYTH_VERIF_SPIN(MYTH_VP_JOIN_SPIN, th);
+#endif
     while (th->status != MYTH_STATUS_FREE_READY2) { }
     myth_join_1(env,th,result);
     //myth_log_add(env,MYTH_LOG_USER);
@@ -855,6 +876,7 @@ static inline int myth_create_join_many_ex_body(myth_thread_t * ids,
 
 static inline int myth_detach_body(myth_thread_t th)
 {
+  MYTH_VERIF_POINT(MYTH_VP_DETACH_FAST, th, 0, th->status==MYTH_STATUS_FREE_READY2);
   if (th->status==MYTH_STATUS_FREE_READY2){
     //If a thread is finished, just release resource
     free_myth_thread_struct_desc(myth_get_current_env(),th);
@@ -862,8 +884,12 @@ static inline int myth_detach_body(myth_thread_t th)
   }
   //Obtain lock
   myth_spin_lock_body(&th->lock);
+  MYTH_VERIF_POINT(MYTH_VP_DETACH_LOCKED, th, 0, myth_desc_is_finished(th));
   if (myth_desc_is_finished(th)){//If a thread is finished, release resource
     myth_spin_unlock_body(&th->lock);
+#ifdef MYTH_VERIF
+    while (th->status != MYTH_STATUS_FREE_READY2) MYTH_VERIF_SPIN(MYTH_VP_JOIN_SPIN, th);
+#endif
     while (th->status!=MYTH_STATUS_FREE_READY2);
     free_myth_thread_struct_desc(myth_get_current_env(),th);
   }
@@ -962,6 +988,7 @@ MYTH_CTX_CALLBACK void myth_yield_ex_1(void * arg1, void * arg2, void * arg3) {
   myth_queue_put(&env->runnable_q, this_thread);
   env->this_thread = next_thread;
   next_thread->env = env;
+  MYTH_VERIF_POINT(MYTH_VP_YIELD_CB, env, this_thread, 0);
 }
 
 //Yield execution to next runnable thread
@@ -1101,12 +1128,14 @@ MYTH_CTX_CALLBACK void myth_entry_point_1(void *arg1,void *arg2,void *arg3)
   env->prof_data.ep_switch += t1-env->prof_data.ep_d_tmp;
   t0 = myth_get_rdtsc();
 #endif
+  MYTH_VERIF_POINT(MYTH_VP_FIN_STACK_FREE, this_thread, this_thread->stack, 0);
   free_myth_thread_struct_stack(env,this_thread);
   if (this_thread->detached){
     //The thread is detached. Release resource
 #if MYTH_ENTRY_POINT_DEBUG
     myth_dprintf("Thread %p is detached.Freed resource\n",this_thread);
 #endif
+    MYTH_VERIF_POINT(MYTH_VP_FIN_PUBLISH, this_thread, 0, 1);
     myth_spin_unlock_body(&this_thread->lock);
     free_myth_thread_struct_desc(env,this_thread);
   }
@@ -1117,6 +1146,7 @@ MYTH_CTX_CALLBACK void myth_entry_point_1(void *arg1,void *arg2,void *arg3)
     this_thread->status = MYTH_STATUS_FREE_READY2;
 #else
     this_thread->status=MYTH_STATUS_FREE_READY2;
+    MYTH_VERIF_POINT(MYTH_VP_FIN_PUBLISH, this_thread, 0, 0);
     myth_spin_unlock_body(&this_thread->lock);
 #endif
   }
@@ -1150,12 +1180,14 @@ MYTH_CTX_CALLBACK void myth_entry_point_2(void *arg1,void *arg2,void *arg3)
   env->prof_data.ep_switch+=t1-env->prof_data.ep_d_tmp;
   t0=myth_get_rdtsc();
 #endif
+  MYTH_VERIF_POINT(MYTH_VP_FIN_STACK_FREE, this_thread, this_thread->stack, 0);
   free_myth_thread_struct_stack(env,this_thread);
   if (this_thread->detached){
     //The thread is detached. Release resource
 #if MYTH_ENTRY_POINT_DEBUG
     myth_dprintf("Thread %p is detached.Freed resource\n",this_thread);
 #endif
+    MYTH_VERIF_POINT(MYTH_VP_FIN_PUBLISH, this_thread, 0, 1);
     myth_spin_unlock_body(&this_thread->lock);
     free_myth_thread_struct_desc(env,this_thread);
   }
@@ -1166,6 +1198,7 @@ MYTH_CTX_CALLBACK void myth_entry_point_2(void *arg1,void *arg2,void *arg3)
     this_thread->status=MYTH_STATUS_FREE_READY2;
 #else
     this_thread->status=MYTH_STATUS_FREE_READY2;
+    MYTH_VERIF_POINT(MYTH_VP_FIN_PUBLISH, this_thread, 0, 0);
     myth_spin_unlock_body(&this_thread->lock);
 #endif
   }
@@ -1207,8 +1240,10 @@ static inline void myth_entry_point_cleanup(myth_thread_t this_thread) {
   env->prof_data.ep_cycles_tmp = t2;
 #endif
   this_thread_v = this_thread;
+  MYTH_VERIF_POINT(MYTH_VP_FIN_BEGIN, this_thread, 0, (long)this_thread->result);
   myth_spin_lock_body(&this_thread->lock);
   myth_thread_t wait_thread = this_thread_v->join_thread;
+  MYTH_VERIF_POINT(MYTH_VP_FIN_LOCKED, this_thread, wait_thread, 0);
   //Execute a thread waiting for current thread
   if (wait_thread){
 #if MYTH_DEBUG_JOIN_FCC
